@@ -54,6 +54,21 @@ var caseVariants = []decoration{
 	{"MinLength", "x", "case"}, {"MinItems", "x", "case"}, {"minproperties", []any{}, "case"}, {"ContentSchema", false, "case"}, {"$Vocabulary", "x", "case"}, {"PrefixItems", []any{false}, "case"}, {"AdditionalItems", false, "case"},
 }
 
+// encoding/json folds with Unicode simple case folding, under which U+017F (long s) equals "s" and U+212A (Kelvin sign)
+// equals "k": spellings of standard keywords with those letters are unknown keywords too.
+func init() {
+	for _, kv := range []decoration{
+		{"item\u017f", false, "case"}, {"minItem\u017f", json.Number("99"), "case"}, {"maxItem\u017f", json.Number("0"), "case"}, {"propertie\u017f", json.Number("17"), "case"},
+		{"patternPropertie\u017f", map[string]any{"": false}, "case"}, {"con\u017ft", "zz-never", "case"}, {"el\u017fe", false, "case"}, {"$\u017fchema", "x", "case"},
+		{"dependentSchema\u017f", map[string]any{"a": false}, "case"}, {"uniqueItem\u017f", "yes", "case"}, {"contain\u017f", false, "case"}, {"example\u017f", "notalist", "case"},
+		{"de\u017fcription", json.Number("5"), "case"}, {"minPropertie\u017f", json.Number("99"), "case"}, {"prefixItem\u017f", []any{false}, "case"}, {"additionalItem\u017f", false, "case"},
+		{"additionalPropertie\u017f", false, "case"}, {"unevaluatedItem\u017f", false, "case"}, {"unevaluatedPropertie\u017f", false, "case"}, {"propertyName\u017f", false, "case"},
+		{"$def\u017f", json.Number("5"), "case"}, {"definition\u017f", "x", "case"}, {"dependencie\u017f", map[string]any{"a": false}, "case"}, {"ITEM\u017f", false, "case"},
+	} {
+		caseVariants = append(caseVariants, kv)
+	}
+}
+
 var unknownNames = []string{"x-a", "x-nullable", "zzz", "foo_bar", "$recursiveRef", "$recursiveAnchor", "id", "extends", "divisibleBy", "disallow", "nullable", "discriminator", "xml", "example", "$unknown", "then ", " type", "type ", "min imum"}
 
 func (c18) decorations(c *fw.Case, draft gen.Draft) []decoration {
